@@ -30,7 +30,8 @@ RULE = ('scenario = (entry point, format {.p8,.p8.png}, destination {absent, exi
         " Further scenarios: two carts in one CLI invocation (luamin / writep8 / luafmt a x: the first output is new, the second exists; the earlier cart's output must be absent or complete after a failure) and library writes of a .p8.png with label_fname naming another file."
         ' Faults also come as Ctrl-C (an injected KeyboardInterrupt subclass, i.e. not an Exception) in the Lua writer and at the first, a middle and the last encoder write.'
         ' Odd shards run after `p8tool --debug stats x.p8` and every fourth after `-q` in the same process (verbosity is process-global); "deep" scenarios write code that is too deeply nested for the AST formatter (it fails by itself with RecursionError) with further faults injected on top.'
-        ' Natural-failure scenarios (the command fails by itself; further faults are injected on top): code too deep for the formatter, `build` over a destination that is not a loadable cart, no usable directory for temporary files.')
+        ' Natural-failure scenarios (the command fails by itself; further faults are injected on top): code too deep for the formatter, `build` over a destination that is not a loadable cart, no usable directory for temporary files.'
+        ' "tmp_here" scenarios make the cart\'s own directory the directory for temporary files (TMPDIR=.).')
 ASSUMPTIONS = ['"producing the cart" = the run of P8Formatter.to_file / P8PNGFormatter.to_file; an I/O error while the '
                'finished bytes are copied into the destination is outside the property and not injected',
                'a call that returns success although the injected fault fired is a violation only if the destination '
@@ -110,6 +111,12 @@ def lib_scenarios():
         for w in WRITERS:
             out.append({'path': 'lib', 'fmt': 'png', 'dest': dest, 'writer': w, 'garbage': 0, 'idx': i, 'label_from': True})
             i += 1
+    # the directory for temporary files IS the cart's directory (TMPDIR=. / carts kept in /tmp)
+    for fmt in FORMATS:
+        for dest in ('absent', 'valid'):
+            for w in WRITERS:
+                out.append({'path': 'lib', 'fmt': fmt, 'dest': dest, 'writer': w, 'garbage': 0, 'idx': i, 'tmp_here': True})
+                i += 1
     return out
 
 
@@ -120,7 +127,8 @@ def cli_scenarios():
 
 def scn_key(scn):
     return '%s%s%s/%s/%s/%s/g%d/%s' % (scn['path'], '+label_fname' if scn.get('label_from') else '',
-                                       ('+deep' if scn.get('deep') else '') + ('+no_tmp' if scn.get('no_tmp') else ''), scn['fmt'],
+                                       ('+deep' if scn.get('deep') else '') + ('+no_tmp' if scn.get('no_tmp') else '') +
+                                       ('+tmp_here' if scn.get('tmp_here') else ''), scn['fmt'],
                                      scn['dest'], scn['writer'], scn.get('garbage', 0), bytes(scn['salt']).hex())
 
 
@@ -345,6 +353,15 @@ class Scenario:
                 finally:
                     _tf.tempdir = old_dir
                 return 0
+            if self.scn.get('tmp_here'):
+                import tempfile as _tf
+                old_dir = _tf.tempdir
+                _tf.tempdir = os.path.dirname(self.dest)
+                try:
+                    pfile.to_file(g, self.dest, **kw)
+                finally:
+                    _tf.tempdir = old_dir
+                return 0
             pfile.to_file(g, self.dest, **kw)
             return 0
         from pico8 import tool
@@ -435,8 +452,9 @@ def judge(sc, spec, inj, err, rc, good, td, case):
         ', '.join('%s=%s' % kv for kv in sorted(spec.items())))
     labs = []
     if failed:
-        if err is not None and inj.fired and not _expected_error(spec, err):
-            raise HarnessError('fault %r fired (%s) but the call raised an unrelated %r' % (spec, inj.fired_what, err))
+        # (an error that does not stem from the injected fault is a harness slip - unless the property is violated
+        # anyway: the clauses below come first, whatever error the failing call ended with)
+        unrelated = err is not None and inj.fired and not _expected_error(spec, err)
         if after != sc.before:
             if sc.before is None:
                 raise Violation('%s: the call failed (%s) but created the destination (%d bytes: %s)'
@@ -463,6 +481,8 @@ def judge(sc, spec, inj, err, rc, good, td, case):
         if listing != sc.listing:
             raise Violation('%s: the failed call changed the directory listing: %r -> %r'
                             % (what, sc.listing, listing), case, 'stray-files')
+        if unrelated:
+            raise HarnessError('fault %r fired (%s) but the call raised an unrelated %r' % (spec, inj.fired_what, err))
         if not fired:
             labs.append('failed_without_fault')
         elif kind in ('label_unreadable', 'natural'):
@@ -556,6 +576,8 @@ def base_labels(sc):
     labs = [CLI_LABEL[sc.path], 'fmt_' + sc.fmt, 'dest_' + sc.scn['dest'], 'writer_' + sc.writer]
     if sc.scn.get('label_from'):
         labs.append('label_fname_given')
+    if sc.scn.get('tmp_here'):
+        labs.append('temp_dir_is_cart_dir')
     if sc.fmt == 'p8':
         labs.append('label' if sc.has_label() else 'no_label')
     return labs
@@ -757,7 +779,7 @@ def vacuity(total, tier):
             'label_unreadable_failed', 'cli_luafmt_overwrite', 'cli_luamin', 'cli_writep8', 'cli_build', 'path_lib',
             'fmt_p8', 'fmt_png', 'dest_absent', 'dest_valid', 'dest_garbage', 'writer_default', 'writer_minify',
             'writer_formatter', 'label', 'no_label', 'post_batch_ok', 'cli_two_carts', 'earlier_cart_output_complete',
-            'label_fname_given', 'interrupted_by_ctrl_c', 'deep_code_natural_failure', 'no_tmp_dir_natural_failure',
+            'label_fname_given', 'temp_dir_is_cart_dir', 'interrupted_by_ctrl_c', 'deep_code_natural_failure', 'no_tmp_dir_natural_failure',
             'build_over_unloadable_out', 'after_earlier_command_with_debug', 'after_earlier_command_with_q',
             'stream_write:p8:absent', 'stream_write:p8:valid', 'stream_write:p8:garbage',
             'stream_write:png:absent', 'stream_write:png:valid']
